@@ -32,7 +32,7 @@ CFGCLS = 'xdoctest.doctest_example.DoctestConfig'
 
 
 def run(ctx):
-    for fn in (r1_one_collector, r2_one_option_table, r3_record_iff_raise, r4_skip_predicates, r5_disabled, r5b_disable_marker_anchored, r3b_raise_only_after_record, r6_exit_status, r2b_environment_defaults_are_front_end_independent, r7_pytest_skip_is_a_graceful_exit):
+    for fn in (r1_one_collector, r2_one_option_table, r3_record_iff_raise, r4_skip_predicates, r5_disabled, r5b_disable_marker_anchored, r3b_raise_only_after_record, r6_exit_status, r2b_environment_defaults_are_front_end_independent, r7_pytest_skip_is_a_graceful_exit, r8_definite_assignment):
         ctx.rep.rule(fn, ctx)
 
 
@@ -433,6 +433,12 @@ def r7_pytest_skip_is_a_graceful_exit(ctx):
                'pytest.skip() inside a doctest ends it quietly under both front ends' if ok else
                'pytest\'s Skipped is not caught with ExitTestException: it is a BaseException, escapes DocTest.run and aborts the native run (no verdict for this or any later doctest, exit 1 '
                'with nothing failed) while pytest reports the doctest as skipped', anchor=RUN)
+
+
+def r8_definite_assignment(ctx):
+    """an UnboundLocalError in one front end only makes its verdicts differ from the other's (DEFINITE-ASSIGNMENT, see common.definite_assignment)"""
+    from .common import definite_assignment
+    definite_assignment(ctx, 'C15.R8', {'xdoctest.plugin', 'xdoctest.__main__'}, 8)
 
 
 # ---------------------------------------------------------------------------
